@@ -10,7 +10,7 @@ from __future__ import annotations
 from typing import Any, Dict, List, Optional, Set, Tuple
 
 from ..loader import Project, AnalysisError
-from ..engines.abseval import Unsupported, AbsRaise, Lin, IndexOut, LoopBound
+from ..engines.abseval import Unsupported, AbsRaise, Lin, IndexOut, LoopBound, Obj
 from ..engines.instances import Runtime, Instance, ExternalFunc
 from .datamodel import World
 from .ilp import PVar, PulpProblem, Constraint, weak_order_assignment, all_weak_orders
@@ -18,13 +18,143 @@ from .ilp import PVar, PulpProblem, Constraint, weak_order_assignment, all_weak_
 ALG = "corankco.algorithms"
 
 
+class _Sink(Obj):
+    """Accepts any attribute access / call (solver parameters, output streams): nothing the analysis depends on."""
+
+    def __init__(self):
+        super().__init__("cplex-settings")
+
+    def abs_getattr(self, name, ev, node):
+        return self
+
+    def abs_call(self, args, kw, ev, node):
+        return None
+
+    def abs_callmethod(self, name, args, kw, ev, node):
+        return None
+
+
+class CplexProblem(Obj):
+    """Stand-in for cplex.Cplex(): records the model the code builds and answers solve() / populate_solution_pool() with
+    the optimum (all optima) of *that model* among the 0/1 assignments induced by rankings with ties - a solver that
+    does its job on whatever model it is given (C05/X2 decides that the schema's feasible set is that family)."""
+
+    def __init__(self, world):
+        super().__init__("cplex.Cplex()")
+        self.world = world
+        self.names: List[str] = []
+        self.obj: List[float] = []
+        self.constraints: List[Constraint] = []
+        self.sense = "min"
+        self.solutions: Optional[List[Dict[str, int]]] = None
+        self.best = None
+        sink = _Sink()
+        variables = Obj("variables", methods={"add": self._add_vars, "get_names": lambda ev, c, a, k: list(self.names),
+                                               "get_num": lambda ev, c, a, k: len(self.names)})
+        lincons = Obj("linear_constraints", methods={"add": self._add_cons,
+                                                      "get_num": lambda ev, c, a, k: len(self.constraints)})
+        objective = Obj("objective", attrs={"sense": Obj("sense", attrs={"minimize": "min", "maximize": "max"})},
+                        methods={"set_sense": self._set_sense})
+        pool = Obj("pool", methods={"get_num": lambda ev, c, a, k: len(self._solved()),
+                                    "get_values": lambda ev, c, a, k: self._values(self._solved()[a[0]], a[1:], c)})
+        solution = Obj("solution", attrs={"pool": pool},
+                       methods={"get_values": lambda ev, c, a, k: self._values(self._first(c), a, c),
+                                "get_objective_value": lambda ev, c, a, k: self._objective(self._first(c)),
+                                "get_status": lambda ev, c, a, k: 101})
+        self.attrs = {"parameters": sink, "variables": variables, "linear_constraints": lincons, "objective": objective,
+                      "solution": solution}
+        self.methods = {
+            "solve": lambda ev, c, a, k: self._solve(),
+            "populate_solution_pool": lambda ev, c, a, k: self._solve(),
+            "set_results_stream": lambda ev, c, a, k: None, "set_log_stream": lambda ev, c, a, k: None,
+            "set_error_stream": lambda ev, c, a, k: None, "set_warning_stream": lambda ev, c, a, k: None,
+            "end": lambda ev, c, a, k: None,
+        }
+
+    def _add_vars(self, ev, call, a, kw):
+        names = list(kw.get("names", []))
+        objs = list(kw.get("obj", []))
+        if len(names) != len(objs) or kw.get("types", "B" * len(names)) != "B" * len(names):
+            raise Unsupported("cplex variables are not binary with one objective coefficient each", call)
+        self.names.extend(names)
+        self.obj.extend(objs)
+        self.solutions = None
+
+    def _add_cons(self, ev, call, a, kw):
+        rows, senses, rhs = list(kw.get("lin_expr", [])), kw.get("senses", ""), list(kw.get("rhs", []))
+        if not (len(rows) == len(senses) == len(rhs)):
+            raise AbsRaise("cplex.exceptions.CplexError", call)     # CPLEX refuses inconsistent lengths
+        for row, sn, r in zip(rows, senses, rhs):
+            lin = Lin()
+            for nm, c in zip(row[0], row[1]):
+                if nm not in self.names:
+                    raise AbsRaise("cplex.exceptions.CplexError", call)
+                lin = lin + Lin.of(PVar(nm, {})) * c
+            self.constraints.append(Constraint(lin, sn, r))
+        self.solutions = None
+
+    def _set_sense(self, ev, call, a, kw):
+        self.sense = a[0]
+
+    def _solve(self):
+        names = list(self.names)
+        n = 0
+        while 3 * n * (n - 1) // 2 < len(names):
+            n += 1
+        coef = dict(zip(names, self.obj))
+        best, arg = None, []
+        for order in all_weak_orders(n) if n > 0 else [[]]:
+            a = weak_order_assignment(order)
+            if set(a) != set(names):
+                raise Unsupported("ILP variables are not the x_i_j / t_i_j family")
+            if all(c.holds(a) for c in self.constraints):
+                v = sum(coef[k] * a[k] for k in names)
+                if self.sense == "max":
+                    v = -v
+                if best is None or v < best - 1e-9:
+                    best, arg = v, [a]
+                elif abs(v - best) <= 1e-9:
+                    arg.append(a)
+        self.best = best
+        self.solutions = arg
+
+    def _solved(self):
+        if self.solutions is None:
+            self._solve()
+        return self.solutions
+
+    def _first(self, call):
+        sols = self._solved()
+        if not sols:
+            raise AbsRaise("cplex.exceptions.CplexSolverError", call)       # no solution exists
+        return sols[0]
+
+    def _values(self, a, args, call):
+        if args:
+            raise Unsupported("solution.get_values with a selection", call)
+        return [float(a[nm]) for nm in self.names]
+
+    def _objective(self, a):
+        return sum(c * a[nm] for nm, c in zip(self.names, self.obj))
+
+
 class E2EWorld(World):
-    def __init__(self, proj: Project, pivot: str = "first"):
+    def __init__(self, proj: Project, pivot: str = "first", cplex: bool = False):
         super().__init__(proj)
         rt = self.rt
         rt.max_steps = 150000
         rt.funcs["print"] = lambda ev, call: None
-        rt.externals["!absent:cplex"] = True
+        self.cplex_present = cplex
+        if cplex:
+            self.cplex_problems: List[CplexProblem] = []
+
+            def new_problem(a, kw, ev, node):
+                p = CplexProblem(self)
+                self.cplex_problems.append(p)
+                return p
+            rt.externals["cplex.Cplex"] = ExternalFunc(new_problem)
+        else:
+            rt.externals["!absent:cplex"] = True
         self.pivot = pivot
         self.random_calls = []
 
@@ -140,8 +270,20 @@ GENERIC = [[0., 2., 1., 1., 3., 4.], [1., 1., 0., 2., 2., 5.]]
 
 def configurations(w: E2EWorld) -> List[Tuple[str, Instance, str]]:
     """(label, algorithm instance, which schemes it accepts on incomplete data: 'any' | 'borda' | 'pick')"""
+    if getattr(w, "_configs", None) is not None:
+        return w._configs           # one set of algorithm objects per world (histories reuse them)
     a = w.alg
-    return [
+    if getattr(w, "cplex_present", False):
+        w._configs = [
+            ("ExactAlgorithmCplex(optimize=True) [CPLEX API present]", a("exact.exactalgorithmcplex", "ExactAlgorithmCplex", optimize=True), "any"),
+            ("ExactAlgorithmCplex(optimize=False) [CPLEX API present]", a("exact.exactalgorithmcplex", "ExactAlgorithmCplex", optimize=False), "any"),
+            ("ExactAlgorithmCplexForPaperOptim1() [CPLEX API present]", a("exact.exactalgorithmcplexforpaperoptim1", "ExactAlgorithmCplexForPaperOptim1"), "any"),
+            ("ExactAlgorithm() [CPLEX API present]", a("exact.exactalgorithm", "ExactAlgorithm"), "any"),
+            ("ExactAlgorithm(optimize=False) [CPLEX API present]", a("exact.exactalgorithm", "ExactAlgorithm", optimize=False), "any"),
+            ("ParCons() [CPLEX API present]", a("parcons.parcons", "ParCons"), "any"),
+        ]
+        return w._configs
+    w._configs = [
         ("BordaCount()", a("borda.borda", "BordaCount"), "borda"),
         ("BordaCount(use_bucket_id=True)", a("borda.borda", "BordaCount", use_bucket_id=True), "borda"),
         ("CopelandMethod()", a("copeland.copeland", "CopelandMethod"), "any"),
@@ -158,3 +300,4 @@ def configurations(w: E2EWorld) -> List[Tuple[str, Instance, str]]:
         ("ExactAlgorithmPulp()", a("exact.exactalgorithmpulp", "ExactAlgorithmPulp"), "any"),
         ("ExactAlgorithm()", a("exact.exactalgorithm", "ExactAlgorithm"), "any"),
     ]
+    return w._configs
